@@ -1042,6 +1042,20 @@ class ComputeGraph(MultiDiGraph):
                 lambda e, fname=fname: isinstance(e, Derivative) and e.expr.func.__name__ == fname,
                 lambda e, rule=rule: rule(e.expr.args[0])
             )
+        # element-wise maximum / minimum of two arguments (`maxi`, `mini`, under the call name of the backend): the derivative
+        # with respect to an argument is 1 where that argument is selected and 0 elsewhere
+        def _minmax_rule(e):
+            a, b = e.expr.args
+            first = e.variables[0] == a
+            s = Function('sign')(a - b)
+            if not e.expr.func.__name__.startswith('max'):
+                s = -s
+            return (1 + s) / 2 if first else (1 - s) / 2
+        expr = expr.replace(
+            lambda e: isinstance(e, Derivative) and e.expr.func.__name__ in ('maxi', 'mini', 'maximum', 'minimum', 'max', 'min')
+            and len(e.expr.args) == 2 and len(e.variables) == 1,
+            _minmax_rule
+        )
         # Sympy wraps chain-rule applications of identity/sigmoid/absv in
         # Subs(Derivative(f(_xi), _xi), _xi, real_arg) because these functions
         # have no fdiff defined.  Once the inner Derivative has been replaced
